@@ -29,29 +29,8 @@ def main():
         a.seed, a.tier = int(d.get('seed', a.seed)), d.get('tier', a.tier)
         print(f'replaying {a.replay}: re-running {a.prop} with seed={a.seed} tier={a.tier}')
     rep = core.Report(a.prop, a.tier, a.seed)
-    try:
-        mod = importlib.import_module(f'harness.props.{a.prop.lower()}')
-        mod.run(rep)
-        return rep.finish()
-    except core.Machinery as e:
-        print(f'MACHINERY-FAILURE property={a.prop}: {e}', file=sys.stderr)
-        return 2
-    except Exception as e:
-        # An exception raised INSIDE the tree under test on an input of the property's domain means the promised result
-        # was not produced: that is a violation, not a machinery failure (API-contract exceptions are handled by the drivers).
-        src = os.path.realpath(os.environ.get('GEMDAT_SRC', '/repo/src'))
-        frames = traceback.extract_tb(e.__traceback__)
-        inside = [f for f in frames if os.path.realpath(f.filename).startswith(src + os.sep)]
-        if inside:
-            tb = ''.join(traceback.format_exception(type(e), e, e.__traceback__))
-            rep.violation({'kind': 'exception', 'clause': f'code-under-test-raised:{type(e).__name__}', 'where': f'{inside[-1].filename}:{inside[-1].lineno}',
-                           'traceback': tb[-3000:]})
-            if not rep.samples:
-                rep.sample({'note': 'run aborted by an exception raised in the code under test'})
-            return rep.finish()
-        traceback.print_exc()
-        print(f'MACHINERY-FAILURE property={a.prop}: unexpected exception in harness', file=sys.stderr)
-        return 2
+    mod = importlib.import_module(f'harness.props.{a.prop.lower()}')
+    return core.run_and_finish(mod.run, rep)
 
 
 if __name__ == '__main__':
